@@ -8,7 +8,34 @@ for programs with a *clean* import graph (`CleanImports`: every line is an `@imp
 file drops these restrictions: missing files, self references, circular imports, repeated imports, `@extern` lines
 (valid external type files, undecodable ones, invalid ones) and duplicate declarations are all covered.
 
-The specification is `programDiags` of `Front/SpecProgram.lean`.
+The specification is `programDiags` of `Front/SpecProgram.lean`: the import tree `rootVisits` (a depth-first search
+with the chain of importers and the set of files entered) and, visit by visit, the diagnostics of the load lines
+(`lineDiags`) and the rule violations of the file read against the registry of its moment.
+
+* `PostV`, `doLoads_sim`, `parseOne_sim`   the simulation (induction over fuel and load lists); registration either
+                                  succeeds or stops at the first collision (`registerAll_cases`)
+* `front_run_visits`              the root call: diagnostics, final registry, or the abort and its place
+* `front_eq_programDiags`         **the main theorem**: `front` reports a permutation of `programDiags`
+* `front_duplicate_raised`, `front_duplicate_position`, `programCollision_none_iff`
+                                  **duplicates**: aborted by a `TypeResolvingException` iff the registered names are not
+                                  pairwise distinct, at the first colliding registration (`programCollision`)
+* `front_missing_iff`             **missing files**: `missing-file` at the path token iff no search candidate exists
+* `front_circular_iff_line`, `front_cycle_iff`
+                                  **cycles**: `circular-import` is reported iff some line closes a cycle (`ClosesCycle`),
+                                  iff the import graph (`ImportsTo`) has a cycle or an `@extern` line refers to its own file
+                                  (`closesCycle_iff_cycle`, `rootVisits_tree`: about the search only)
+* `front_ok_iff`                  **acceptance**: every load line `LineOk`, nothing undecodable, no rule violation
+                                  (`programViolations`); `diagsFrom_perm`, `violations_rule`, `mem_diagsFrom_import`
+* `rootVisits_events`, `rootVisits_files`, `rootVisits_data`, `programKeys_rootEvents`
+                                  link to `Front/Order.lean`: the visits are the registration events `rootEvents`, the IDL
+                                  files visited are `rootOrder`, the registered names are those of the events in event order
+* `visitsChecks`                  the hypotheses, computable (used for the examples)
+
+Hypotheses (`GoodV`) that are not in the informal statement: as in `Props/C05Program.lean`, the IDL files have pairwise
+distinct *names* and the references within a file are at pairwise distinct positions (H4). "Every reachable IDL file
+lexes and parses" is stated on the search itself: no visit is `broken` (everything *entered* — the root, the target of
+every `@import` line that is followed — is IDL text inside the grammar or an undecodable file). Targets of `@extern`
+lines may be anything.
 -/
 namespace Pydjinni.Front
 
@@ -711,6 +738,44 @@ theorem front_duplicate_raised (cfg : Cfg) (fs : FS) (builtins : Registry) (root
     obtain ⟨ds, hds, _⟩ := front_eq_programDiags cfg fs builtins root hb hgood hdup
     rw [hds] at hfront
     split at hfront <;> cases hfront
+
+theorem nodup_of_firstCollision_none (T : List String) (l : List (String × String × Pos)) (hT : T.Nodup)
+    (h : firstCollision T l = none) : (T ++ l.map (·.1)).Nodup := by
+  induction l generalizing T with
+  | nil => simpa using hT
+  | cons x l ih =>
+    simp only [firstCollision] at h
+    split at h
+    · cases h
+    · rename_i hx
+      have hT' : (T ++ [x.1]).Nodup := by
+        rw [List.nodup_append]
+        refine ⟨hT, by simp, fun a ha b hb hab => ?_⟩
+        simp only [List.mem_singleton] at hb
+        subst hab; subst hb; exact hx ha
+      simpa [List.append_assoc] using ih _ hT' h
+
+/-- no registration collides iff the registered names are pairwise distinct -/
+theorem programCollision_none_iff (builtins : Registry) (visits : List Visit) (hb : (builtins.map (·.key)).Nodup) :
+    programCollision builtins visits = none ↔ (programKeys builtins visits).Nodup := by
+  unfold programCollision programKeys
+  rw [List.map_append, ← sites_keys]
+  exact ⟨nodup_of_firstCollision_none _ _ hb, firstCollision_none_of_nodup _ _⟩
+
+/-- **Duplicates, with the place (C04).** Under the other hypotheses of `front_eq_programDiags`: if the names
+    registered in visit order are not pairwise distinct, the front end is aborted by a `TypeResolvingException` *at
+    the first colliding registration* (`programCollision`): going through the registrations in the order of the run —
+    an IDL file's declarations in textual order when the file is finished (imported files before the importing file),
+    an external type file's definitions at the `@extern` line that loads it — the first declaration whose qualified
+    name is already taken by a built-in or by an earlier registration, i.e. the second declaration of that name. -/
+theorem front_duplicate_position (cfg : Cfg) (fs : FS) (builtins : Registry) (root : APath)
+    (hb : (builtins.map (·.key)).Nodup) (hgood : GoodV cfg (rootVisits cfg fs root))
+    (hdup : ¬ (programKeys builtins (rootVisits cfg fs root)).Nodup) :
+    ∃ f p, programCollision builtins (rootVisits cfg fs root) = some (f, p)
+      ∧ front cfg fs builtins root = .abort (.raised "TypeResolvingException" f p) := by
+  rcases front_run_visits cfg fs builtins root hb hgood with ⟨hnd, _⟩ | ⟨_, f, p, herr, hfc⟩
+  · exact absurd hnd hdup
+  · exact ⟨f, p, hfc, by unfold front; rw [herr]⟩
 
 /-- the final registry of a successful run: built-ins, then what each visit registers, in visit order -/
 theorem front_final_registry_visits (cfg : Cfg) (fs : FS) (builtins : Registry) (root : APath)
@@ -1982,11 +2047,27 @@ def exDupFiles : FS := fsOf [("a", "@import \"b\"\n\nt = enum { k; }"), ("b", "t
 #guard match front cfg0 exDupFiles bi ["w", "a"] with
   | .abort (.raised "TypeResolvingException" "/w/a" pos) => pos.sl == 3
   | _ => false
+def abortAt (o : Outcome) : Option (String × Pos) :=
+  match o with
+  | .abort (.raised cls f p) => if cls == "TypeResolvingException" then some (f, p) else none
+  | _ => none
+-- `front_duplicate_position`: the abort is where `programCollision` says
+#guard (programCollision bi (rootVisits cfg0 exDupFiles ["w", "a"])).map (fun x => (x.1, x.2.sl)) == some ("/w/a", 3)
+#guard abortAt (front cfg0 exDupFiles bi ["w", "a"]) == programCollision bi (rootVisits cfg0 exDupFiles ["w", "a"])
+-- two imported files declare the same name: the abort is in the file finished second (`c`), the root is never finished
+def exDupSiblings : FS := fsOf [("a", "@import \"b\"\n@import \"c\"\nta = enum { k; }"), ("b", "t = enum { k; }"),
+  ("c", "\nu = enum { k; }\nt = enum { k; }")]
+#guard visitsChecks cfg0 exDupSiblings bi ["w", "a"] && !nodupKeys cfg0 exDupSiblings bi ["w", "a"]
+#guard (programCollision bi (rootVisits cfg0 exDupSiblings ["w", "a"])).map (fun x => (x.1, x.2.sl)) == some ("/w/c", 3)
+#guard abortAt (front cfg0 exDupSiblings bi ["w", "a"]) == programCollision bi (rootVisits cfg0 exDupSiblings ["w", "a"])
 -- a duplicate of an external type
 def exDupExt : FS := { files := [(["w", "a"], .idl "@extern \"e.yaml\"\next1 = enum { k; }"),
   (["w", "e.yaml"], .ext [{ key := "ext1", prim := .record, arity := 0, pos := default }])] }
 #guard visitsChecks cfg0 exDupExt bi ["w", "a"] && !nodupKeys cfg0 exDupExt bi ["w", "a"]
 #guard match front cfg0 exDupExt bi ["w", "a"] with | .abort (.raised "TypeResolvingException" "/w/a" _) => true | _ => false
+#guard abortAt (front cfg0 exDupExt bi ["w", "a"]) == programCollision bi (rootVisits cfg0 exDupExt ["w", "a"])
+-- without a duplicate there is no collision
+#guard (programCollision bi (rootVisits cfg0 exExterns ["w", "a"])).isNone
 
 -- the hypothesis on the visits is needed: an imported file outside the grammar is a `broken` visit; the model aborts
 def exBroken : FS := fsOf [("a", "@import \"b\"\nta = enum { k; }"), ("b", "this is not idl {")]
